@@ -10,7 +10,7 @@ Sub-worlds (mappings from vf.worlds.ormworld3, Session(autoflush=False) so
 that every flush is an explicit operation of the history):
  col   P.x (active_history off) and P.y (active_history on) of one object that
        starts transient / pending / persistent-loaded (row 1,1 or NULL,NULL) /
-       persistent-expired.  ops: set over {None, 1, 2} (1 = committed value),
+       persistent-expired.  ops: set over {None, 1001, 1002} (1001 = committed value; always a fresh int object),
        del, expire(attr), expire(obj), read, flush.
  ref   many-to-one C.p (active_history off and on) of one child that starts
        pending / loaded (parent p1 or None) / only the relationship expired /
@@ -85,7 +85,7 @@ META = dict(
     "pending net change or is a flush that has something to write; outcomes = distinct (op, history triple shapes)",
     assumptions=[
         "Session(autoflush=False), one session, no concurrent writer",
-        "value domain {None, 1, 2} for columns, 2 parents / 3 children for references",
+        "value domain {None, 1001, 1002} for columns, 2 parents / 3 children for references",
         "a list never holds the same child twice (see C37)",
     ],
     bounds=dict(
@@ -156,6 +156,13 @@ class Ctx:
 # ================================================================== col world
 
 COL_INITS = ("transient", "pending", "loaded", "expired", "loaded_null")
+V1, V2 = 1001, 1002  # above CPython's small-int cache: equality is not identity
+
+
+def _fresh(v):
+    return None if v is None else int(str(v))
+
+
 COL_AH = {"x": False, "y": True}
 
 
@@ -170,14 +177,14 @@ def col_build(init):
             ctx.sess = Session(ctx.engine, autoflush=False)
             ctx.sess.add(o)
     else:
-        v = "NULL" if init == "loaded_null" else "1"
+        v = "NULL" if init == "loaded_null" else str(V1)
         ctx.engine = w.memory_engine("insert into p (id, name, x, y) values (1, 'p1', %s, %s)" % (v, v))
         ctx.sess = Session(ctx.engine, autoflush=False)
         if init == "expired":
             o = w.P(id=1)
         else:
-            val = None if init == "loaded_null" else 1
-            o = w.P(id=1, name="p1", x=val, y=val)
+            val = None if init == "loaded_null" else _fresh(V1)
+            o = w.P(id=1, name="p1", x=val, y=_fresh(val))
         make_transient_to_detached(o)
         ctx.sess.add(o)
     ctx.o = o
@@ -193,9 +200,9 @@ class ColModel:
             if self.status != "persistent":
                 self.a[k] = AttrHist("col", None, loaded=True, absent=True)
             elif init == "expired":
-                self.a[k] = AttrHist("col", 1, loaded=False)
+                self.a[k] = AttrHist("col", V1, loaded=False)
             else:
-                v = None if init == "loaded_null" else 1
+                v = None if init == "loaded_null" else V1
                 self.a[k] = AttrHist("col", v, loaded=True, cur=v)
 
     def copy(self):
@@ -251,15 +258,13 @@ class ColModel:
                 for m in self.a.values():
                     if m.dirty:
                         m.row = m.effective()
-                    m.reset()
-                    if m.absent:
-                        m.loaded, m.absent = False, False
+                    m.reset()  # (a deleted column attribute stays without a value: not expired, reads None)
 
     def enabled(self):
         ops = []
         for k in ("x", "y"):
             m = self.a[k]
-            for v in (None, 1, 2):
+            for v in (None, V1, V2):
                 ops.append(["set", k, v])
             if not m.absent:  # del of an attribute without a value is an AttributeError
                 ops.append(["del", k])
@@ -280,7 +285,7 @@ class ColModel:
 def col_apply(ctx, op):
     o = ctx.o
     if op[0] == "set":
-        setattr(o, op[1], op[2])
+        setattr(o, op[1], _fresh(op[2]))  # equal to, never identical with, the committed value
     elif op[0] == "del":
         delattr(o, op[1])
     elif op[0] == "expire":
@@ -846,6 +851,8 @@ def make_step(rec, shard, tier):
                 if not m.loaded:
                     # something loaded it (refresh of the row): must be the row value
                     m.loaded, m.cur, m.absent = True, m.row, False
+                if m.absent and not m.dirty and val == m.row:
+                    m.absent, m.cur = False, m.row  # re-read from the row
                 if m.absent or val != m.cur:
                     fail("value", None, hist_, op, "%s is %r in memory, reference %s" % (a, val, "no value" if m.absent else repr(m.cur)))
                     return False
@@ -904,7 +911,9 @@ def make_step(rec, shard, tier):
                 if want != before_fk and not ups:
                     fail("flush", None, hist_, op, "foreign key changed %r -> %r without UPDATE" % (before_fk, want))
                     return False
-                if ups and not ms_before.m.changed():
+                if ups and not ms_before.m.changed() and ctx.fk_loaded:
+                    # (with the foreign key column itself unloaded the committed
+                    # value is unknown and writing the same value is allowed)
                     fail("flush", None, hist_, op, "UPDATE %r although the reference has no net change" % (ups,))
                     return False
         else:
@@ -947,6 +956,7 @@ def make_step(rec, shard, tier):
         m2 = ms.copy()
         mark = ctx.log.mark() if ctx.log else 0
         fk_loaded = "p_id" in ctx.o.__dict__ if sub == "ref" else None
+        ctx.fk_loaded = fk_loaded
         if sub == "coll":
             ctx.fk_unknown = {c for c in CH if "p_id" not in ctx.objs[c].__dict__}
         exc = ret = None
